@@ -262,29 +262,15 @@ def _(c):
     lp.invariant = lambda x: And(x.g.j >= 0, x.v.root == L.upk(x.h0)(x.a.self, x.g.j), x.h0.mem(x.T, x.v.root), x.h0.rank(x.v.root) == x.h0.rank(x.a.self) - x.g.j)
 
 
-def proper_ancestor(h, T, a, n):
-    """a is a proper, non-root ancestor of n:  exists k in [1, rank(n)) with upk(n,k) == a."""
-    k = L.fresh("k", L.I)
-    return Exists([k], And(1 <= k, k < h.rank(n), L.upk(h)(n, k) == a))
-
-
 @contract(NQ + "is_descendant_of", props=C10)
 def _(c):
     c.param("self", "node").param("other", "node")
     c.result_tag = "bool"
     c.pure()
-    member_pre(c)
-    c.ensures("result <=> other is a proper ancestor of self", lambda x: x.r == proper_ancestor(x.h0, x.T, x.a.other, x.a.self))
-    lp = c.loop(1)
-    lp.ghost["j"] = (lambda x: z3.IntVal(1), lambda x: x.g.j + 1)
-
-    def inv(x):
-        h0, s = x.h0, x.a.self
-        up = L.upk(h0)
-        return And(x.g.j >= 1, x.v.parent == up(s, x.g.j), h0.inP(x.T, x.v.parent), h0.rank(x.v.parent) == h0.rank(s) - x.g.j,
-                   fa_int(1, x.g.j, lambda k: up(s, k) != x.a.other, lambda k: up(s, k)))
-
-    lp.invariant = inv
+    inP_pre(c)
+    c.ensures("result <=> other is a proper (non-root) ancestor of self", lambda x: x.r == L.is_desc(x.h0, x.a.self, x.a.other))
+    # E(parent(self), other) == E(cur, other): what is still to be decided lies above `cur`
+    c.loop(1).invariant = lambda x: And(L.anc_chain(x.h0)(x.h0._parent(x.a.self), x.a.other) == L.anc_chain(x.h0)(x.v.parent, x.a.other), Or(x.v.parent == NONE, x.h0.inP(x.T, x.v.parent)))
 
 
 @contract(NQ + "is_ancestor_of", props=C10)
@@ -292,8 +278,8 @@ def _(c):
     c.param("self", "node").param("other", "node")
     c.result_tag = "bool"
     c.pure()
-    c.requires("wf", lambda x: And(wf0(x), self_member(x), x.h0.mem(x.T, x.a.other)))
-    c.ensures("result <=> self is a proper ancestor of other", lambda x: x.r == proper_ancestor(x.h0, x.T, x.a.self, x.a.other))
+    c.requires("wf", lambda x: And(wf0(x), self_in_P(x), x.h0.inP(x.T, x.a.other)))
+    c.ensures("result <=> self is a proper (non-root) ancestor of other", lambda x: x.r == L.is_desc(x.h0, x.a.other, x.a.self))
 
 
 # ------------------------------------------------------------------ Tree level
